@@ -77,6 +77,58 @@ theorem C02_annotate_length (cc : CharClasses) (l : Language) (toks : List Tok) 
   have := congrArg List.length (C02_annotate_core cc l toks)
   simpa using this
 
+/-! ### hints only ever go from unset to set: a hint the caller gave survives annotation -/
+
+/-- position by position, every hint set in `a` is set in `b` -/
+def NanLe (a b : List Tok) : Prop :=
+  ∀ (j : Nat) (t : Tok), a[j]? = some t → ∃ t', b[j]? = some t' ∧ (t.nan = true → t'.nan = true)
+
+theorem NanLe.refl (a : List Tok) : NanLe a a := fun _ t h => ⟨t, h, id⟩
+
+theorem NanLe.trans {a b c : List Tok} (h1 : NanLe a b) (h2 : NanLe b c) : NanLe a c := by
+  intro j t h
+  obtain ⟨t', h', i1⟩ := h1 j t h
+  obtain ⟨t'', h'', i2⟩ := h2 j t' h'
+  exact ⟨t'', h'', fun x => i2 (i1 x)⟩
+
+theorem NanLe.setNan (toks : List Tok) (i : Nat) : NanLe toks (setNan toks i) :=
+  fun j t h => setNan_nan_mono toks i j t h
+
+theorem annotateEnLoop_nanLe (apply : Word → DS → Res × DS) (sig : List Nat) :
+    ∀ (is : List Nat) (j : Nat) (b : DS) (toks : List Tok),
+      NanLe toks (annotateEnLoop apply sig is j b toks)
+  | [], _, _, toks => NanLe.refl toks
+  | i :: rest, j, b, toks => by
+    unfold annotateEnLoop
+    split
+    · dsimp only
+      split
+      · exact annotateEnLoop_nanLe apply sig rest _ _ _
+      · exact (NanLe.setNan toks i).trans (annotateEnLoop_nanLe apply sig rest _ _ _)
+    · exact annotateEnLoop_nanLe apply sig rest _ _ _
+
+theorem annotateFrLoop_nanLe (apply : Word → DS → Res × DS) (isDecSep : Word → Bool) (tw : List Nat) :
+    ∀ (is : List Nat) (b : DS) (toks : List Tok),
+      NanLe toks (annotateFrLoop apply isDecSep tw is b toks)
+  | [], _, toks => NanLe.refl toks
+  | i :: rest, b, toks => by
+    unfold annotateFrLoop
+    split
+    · exact annotateFrLoop_nanLe apply isDecSep tw rest _ _
+    · dsimp only
+      repeat' split
+      all_goals first
+        | exact annotateFrLoop_nanLe apply isDecSep tw rest _ _
+        | exact (NanLe.setNan toks _).trans (annotateFrLoop_nanLe apply isDecSep tw rest _ _)
+
+/-- **a hint set by the caller is never cleared by the annotation pass of any built-in language** -/
+theorem C02_annotate_keeps_hints (cc : CharClasses) (l : Language) (toks : List Tok) :
+    NanLe toks (l.annotate cc toks) := by
+  cases l <;> first
+    | exact NanLe.refl toks
+    | exact annotateEnLoop_nanLe _ _ _ _ _ _
+    | exact annotateFrLoop_nanLe _ _ _ _ _ _
+
 /-- **C02 for `replace_numbers_in_text` itself, no premise left**: for every language, threshold, text and
 char classes, the kept pieces of the tokens concatenate to the original text -/
 theorem C02_text_pieces_language (cc : CharClasses) (l : Language) (thr : Nat → Bool) (s : Word) :
